@@ -343,12 +343,14 @@ def parent_of(facts, cb):
     return c[0] if len(c) == 1 else None
 
 
-def in_parent_terms(facts, cb, e):
+def in_parent_terms(facts, cb, e, stop_at=None):
     """Rewrite closure-body expression e with captured variables replaced by the (transitively
-    expanded) expressions of the enclosing function."""
+    expanded) expressions of the enclosing function (or of the enclosing body `stop_at`)."""
     cur = cb
     e = norm(e)
     for _ in range(6):
+        if stop_at is not None and cur is stop_at:
+            break
         par = parent_of(facts, cur)
         if par is None:
             break
@@ -502,3 +504,142 @@ def _bd(e, inp):
 
 def deps_union(v):
     return frozenset().union(*v)
+
+
+# ----------------------------------------------------------------------------------------
+# guards on expanded atoms
+# ----------------------------------------------------------------------------------------
+
+def expand_state(body, s, hist=False):
+    """Same valuation with every atom rewritten in expanded form (immutable single-definition
+    variables substituted), so rules do not depend on local variable names.  hist=True uses the
+    branch history (decisions taken on the path, not invalidated by later writes)."""
+    lits = set()
+    for a, v in (s.hist if hist else s.lits):
+        ea = norm(body.expand(a))
+        pol = v
+        while ea[0] == "un" and ea[1] == "Not":
+            ea = ea[2]
+            pol = not pol
+        lits.add((ea, pol))
+    return PathState(frozenset(lits), s.user)
+
+
+def all_states(body, at, node_key, formula, expand=True, hist=False):
+    """(ok, counterexample) : formula holds in every state reaching node_key."""
+    sts = at.get(node_key, set())
+    for s in sts:
+        es = expand_state(body, s, hist) if expand else (s.as_hist() if hist else s)
+        if feval(formula, es) is not True:
+            return False, es
+    return True, None
+
+
+def precedes_each_time(body, a_bi, b_bi):
+    """Block a dominates block b and every cycle through b passes a (a is executed before each
+    execution of b)."""
+    if not block_dominates(body, a_bi, b_bi):
+        return False
+    seen = set()
+    stack = list(body.succs(b_bi))
+    while stack:
+        x = stack.pop()
+        if x in seen or x == a_bi:
+            continue
+        seen.add(x)
+        if x == b_bi:
+            return False
+        stack.extend(body.succs(x))
+    return True
+
+
+SEND_NAMES = ("Sender::send", "Sender::try_send", "SelectedOperation::send", "Sender::send_blocking")
+
+
+def send_sites(body):
+    """Channel send sites: (bi, term, channel expr, payload expr).  crossbeam's select! expands
+    to SelectedOperation::send(oper, unbind(&chan), msg)."""
+    out = []
+    for bi, t in body.calls():
+        c = body.callee_of(t)
+        if not any(callee_matches(c, n) for n in SEND_NAMES):
+            continue
+        a = [norm(x) for x in body.call_args(t)]
+        if callee_matches(c, "SelectedOperation::send"):
+            ch = a[1]
+            if ch[0] == "call" and ch[1].endswith("::unbind"):
+                ch = ch[2][0]
+            out.append((bi, t, norm(ch), a[2]))
+        else:
+            out.append((bi, t, a[0], a[1] if len(a) > 1 else None))
+    return out
+
+
+def A(e):
+    return ("atom", e)
+
+
+def NOT(f):
+    return ("not", f)
+
+
+def AND(*fs):
+    return ("and",) + fs
+
+
+def OR(*fs):
+    return ("or",) + fs
+
+
+def call(name, *args):
+    return ("call", name, tuple(args))
+
+
+def some_payload(e):
+    return ("field", ("downcast", e, "Some"), "0")
+
+
+def stmt_nodes(body, pred):
+    """(bi, si, stmt) for assign statements in live blocks satisfying pred(stmt)."""
+    out = []
+    for bi in body.live_blocks():
+        for si, st in enumerate(body.blocks[bi]["stmts"]):
+            if st["k"] == "assign" and pred(st):
+                out.append((bi, si, st))
+    return out
+
+
+def agg_nodes(body, adt_suffix, variant=None):
+    """Aggregate constructions of an ADT (path suffix) -> (bi, si, stmt, expr)."""
+    out = []
+    for bi, si, st in stmt_nodes(body, lambda s: s["rv"]["k"] == "agg" and s["rv"].get("ak") == "adt"):
+        name = strip_generics(st["rv"]["adt"])
+        if (name == adt_suffix or name.endswith("::" + adt_suffix)) and (variant is None or st["rv"]["variant"] == variant):
+            out.append((bi, si, st, norm(body.rvalue_expr(st["rv"], True))))
+    return out
+
+
+def agg_fields(e):
+    return dict(zip(e[4], e[3])) if e and e[0] == "agg" else {}
+
+
+def closure_passed_to(facts, cb):
+    """For closure body cb: (parent body, call block, call term) of the call it is passed to."""
+    par = parent_of(facts, cb)
+    if par is None:
+        return None
+    for bi, t in par.calls():
+        for ce in closure_of_call(par, t):
+            if ce[1] == cb.path:
+                return par, bi, t
+    return None
+
+
+def descendants(facts, body):
+    """body plus all closure bodies nested in it."""
+    out = [body]
+    i = 0
+    while i < len(out):
+        out.extend(facts.children(out[i]))
+        i += 1
+    return out
